@@ -47,7 +47,7 @@ CLAIMED['C03'] = dict(
     text='Contract proof (integer theory, unbounded within width <= 2^20, |d| <= 2^40, strides <= 2^40) of iterator_from_2d '
          'increment/decrement/advance/distance_to/equal with the representation invariant 0 <= x < width and locator == coordinates; '
          'memory_based_2d_locator offset/+=/-=/cache_location/operator()/x_at/is_1d_traversable/y_distance_to; memunit_step_fn and '
-         'the step-iterator ordering operators; the bit cursor. Random-access laws, end()-begin() == w*h, at(x,y)/begin()[y*w+x]/'
+         'the step-iterator ordering operators (also over a base that is itself a step iterator with any non-zero step); planar_pixel_iterator operator[] / distance_to / memunit_step / memunit_distance; the bit cursor. Random-access laws, end()-begin() == w*h, at(x,y)/begin()[y*w+x]/'
          'rbegin()[...] reaching pixel (x,y) and path-independence of locator moves are lemmas over those bodies/contracts.',
     note=TRUST + 'Assumed: boost::iterator_facade operator plumbing; memunit_advance/distance/step of raw, planar and step iterators '
          '(one-line bodies) follow the address model a += d; image_view accessor bodies enter through their index expressions.',
@@ -113,7 +113,7 @@ CLAIMED['C16'] = dict(
     text='Contract proof of the six per-channel lambdas of threshold_binary / threshold_truncate (exact documented comparison for every channel '
          'value, u8/u16/i16) and of detail::morph_impl with loop contracts on all four loops and a ghost neighbour: every read/write in bounds, every '
          'destination pixel written, erode <= src <= dilate, and dilate >= (erode <=) EVERY in-image neighbour under a non-zero structuring-element '
-         'entry, for views up to 10^5 x 10^5 and kernels up to 1000 x 1000 (float32 and 8-bit channels). Otsu is a bounded native stand-in (UBSan).',
+         'entry, for views up to 10^5 x 10^5 and kernels up to 1000 x 1000 (float32 and 8-bit channels); detail::threshold_impl writes every destination pixel exactly once from the source pixel of the same coordinates and never indexes a row iterator past its row in a non-traversable view. Otsu is a bounded native stand-in (UBSan).',
     note=TRUST + 'Median filter, adaptive threshold, opening/closing algebra and the existence half of the extremum (result is one of the inputs) are not covered; '
          'the empty-image case of threshold_optimal was a known finding until it was repaired (fixed entry in known_findings.json); view access is the ghost VIEW_READ/VIEW_WRITE model.',
     technique='function contracts and nested loop contracts with a ghost neighbour (CBMC DFCC) on extracted real bodies; bounded native stand-in for Otsu',
@@ -150,7 +150,7 @@ CLAIMED['C05'] = dict(
 CLAIMED['C04'] = dict(
     text='Partial. Loop-contract proof (unbounded, n <= 2^40) of the three copier_n specialisations behind copy_pixels / std::copy on views that are not '
          '1-D traversable: every pixel g of [0,n) is copied exactly once, from source pixel g (the per-pixel loop in row-major order); every '
-         'chunk handed to copy_n lies inside ONE row of each 2-D side, so row padding and neighbouring pixels are never written; nothing beyond n pixels is written.',
+         'chunk handed to copy_n lies inside ONE row of each 2-D side, so row padding and neighbouring pixels are never written; nothing beyond n pixels is written. for_each / generate / fill / transform_pixels and the std::fill overload visit every pixel exactly once (1-D fast path only for traversable views); planar fill_aux pairs planes with the value\'s channels by colour.',
     note=TRUST + 'fill/equal/for_each/generate/transform pixel algorithms are not built. iterator += k is the C03 advance contract; copy_n on raw iterators is assumed to copy k consecutive pixels; '
          'the 1-D traversability predicate that selects the copier is under contract in C03.',
     technique='function contracts with loop invariants / decreases clauses and a ghost target pixel, enforced by CBMC DFCC on extracted real bodies',
